@@ -7,6 +7,7 @@ import (
 	"sort"
 	"strings"
 	"sync"
+	"sync/atomic"
 	"time"
 )
 
@@ -311,14 +312,49 @@ func runCheck(eng *Engine, start time.Time) int {
 					if len(j.iz3) == 1 {
 						all = false
 					}
+					// the split cases are independent: solve up to eight at a time, stop at the first that is not unsat
+					type caseRes struct {
+						r SolveResult
+					}
+					ncases := len(j.iz3) - 1
+					resCh := make(chan caseRes, ncases)
+					caseSem := make(chan struct{}, 8)
+					var stop int32
+					var cwg sync.WaitGroup
 					for ci := 1; ci < len(j.iz3); ci++ {
-						r = raceFiles(j.iz3[ci], j.icvc[ci], it, seed, false)
-						tot += r.Time
-						if r.Status != "unsat" {
+						cwg.Add(1)
+						go func(ci int) {
+							defer cwg.Done()
+							caseSem <- struct{}{}
+							defer func() { <-caseSem }()
+							if atomic.LoadInt32(&stop) != 0 {
+								resCh <- caseRes{SolveResult{Status: "skipped"}}
+								return
+							}
+							cr := raceFiles(j.iz3[ci], j.icvc[ci], it, seed, false)
+							if cr.Status != "unsat" {
+								atomic.StoreInt32(&stop, 1)
+							}
+							resCh <- caseRes{cr}
+						}(ci)
+					}
+					cwg.Wait()
+					close(resCh)
+					var maxT float64
+					for cr := range resCh {
+						if cr.r.Status != "unsat" {
 							all = false
-							break
+							if cr.r.Status != "skipped" {
+								r = cr.r
+							}
+						} else if all {
+							r = cr.r
+						}
+						if cr.r.Time > maxT {
+							maxT = cr.r.Time
 						}
 					}
+					tot += maxT
 				}
 				if all {
 					r.Solver += "+inst"
